@@ -136,6 +136,20 @@ def gen_w_collection(rng, p=None):
                     t["strand"] = "MINUS" if t["strand"] == "PLUS" else "PLUS"
                     if t["cds_frames"]:
                         t["cds_frames"] = list(reversed(t["cds_frames"]))
+        if g["transcripts"][0]["cds_starts"] and rng.random() < 0.2:
+            # a second isoform with the SAME CDS and other UTRs, neither isoform carrying an identifier of its own:
+            # structurally identical CDS records that differ only in free-form qualifiers
+            import copy
+            t0 = g["transcripts"][0]
+            t1 = copy.deepcopy(t0)
+            t1["exon_starts"][0] = max(0, t1["exon_starts"][0] - rng.randint(1, 3))
+            t1["exon_ends"][-1] = min(L, t1["exon_ends"][-1] + rng.randint(0, 2))
+            t1["transcript_symbol"] = (t0.get("transcript_symbol") or "TS") + ".iso2"
+            t1["is_primary_tx"] = False
+            for t in (t0, t1):
+                t["transcript_id"] = None
+                t["protein_id"] = None
+            g["transcripts"] = [t0, t1] + g["transcripts"][1:]
         if rng.random() < 0.1:
             g["gene_symbol"] = ""                 # falsy but not None
         if rng.random() < 0.1:
@@ -260,12 +274,24 @@ def mutate_records(rng, recs, kinds):
                 parts[-1] = (parts[-1][0], parts[-1][1] + rng.randint(1, 5))
         elif kind == "dup-record":
             recs.insert(i, (ty, st, list(parts), {k: list(v) for k, v in q.items()}))
+        elif kind == "dup-cds-other-quals":
+            # a second record with the same location that differs ONLY in free-form qualifiers (two isoforms with one
+            # CDS and no identifiers of their own, as the prokaryotic flavour writes them)
+            ci = [k for k, r in enumerate(recs) if r[0] in ("CDS", "mRNA", "tRNA", "ncRNA")]
+            if ci:
+                k = rng.choice(ci)
+                ty2, st2, parts2, q2 = recs[k]
+                for key in ("transcript_id", "protein_id"):
+                    q2.pop(key, None)
+                q3 = {kk: list(v) for kk, v in q2.items()}
+                q3["note"] = ["isoform 2"]
+                recs.insert(k + 1, (ty2, st2, list(parts2), q3))
     return recs
 
 
 MUTATION_KINDS = ["shuffle", "swap", "drop-gene", "drop", "untag", "untag-all", "dup-tag", "retype", "add-exon",
                   "add-other", "unstrand", "zero-length", "codon-start", "pseudo", "reverse-parts", "widen-cds",
-                  "dup-record"]
+                  "dup-record", "dup-cds-other-quals"]
 
 
 # ------------------------------------------------------------------------------------------------------
